@@ -500,6 +500,32 @@ def main(argv):
             c.violation("tool/dedupe-key: dedupe -f %s -d %r on lines %r and %r printed %r (status %s); their selected fields are %s so the second line must be %s" % (
                 spec.decode(), dl, l1, l2, so, st, "identical" if same else "different", "dropped" if same else "kept"),
                 {"op": "dedupe", "kind": "pair", "args": ["-f", spec.decode(), "-d", dl.decode("latin1")], "actual_args": dargs, "stdin_hex": hexs(data), "stdout_hex": hexs(so), "expected_hex": hexs(want)})
+    # dedupe in parallel mode (four files) uses the same field keys on both sides: with all-distinct right lines the
+    # second pair is kept exactly when the left lines' selected fields differ
+    for n_, (spec, d, l1, l2, same) in enumerate(pairs[:30 if c.volume == "quick" else 200]):
+        dl = bytes([d])
+        if l1 == l2:
+            continue
+        need = 12
+        r1 = dl.join(b"r1f%d" % j for j in range(need))
+        r2 = dl.join(b"r2f%d" % j for j in range(need))
+        fl, fr, ol, orr = [os.path.join(SCRATCH, x) for x in ("par_l", "par_r", "par_lo", "par_ro")]
+        open(fl, "wb").write(l1 + b"\n" + l2 + b"\n")
+        open(fr, "wb").write(r1 + b"\n" + r2 + b"\n")
+        st, so, se = run_tool([repo_bin("dedupe"), "-f", spec.decode(), "-d", dl.decode("latin1"), fl, fr, ol, orr], timeout=60)
+        c.count(("parallel", spec, d, l1, l2), bucket="tool/dedupe-parallel")
+        c.cov["traces_validated_against_impl"] += 1
+        gl = open(ol, "rb").read() if os.path.exists(ol) else b""
+        gr = open(orr, "rb").read() if os.path.exists(orr) else b""
+        wl = l1 + b"\n" + (b"" if same else l2 + b"\n")
+        wr = r1 + b"\n" + (b"" if same else r2 + b"\n")
+        if st != 0 or gl != wl or gr != wr:
+            c.violation("tool/dedupe-parallel-key: dedupe -f %s -d %r in_l in_r out_l out_r with left lines %r, %r (selected fields %s) wrote left %r right %r (status %s)" % (
+                spec.decode(), dl, l1, l2, "identical" if same else "different", gl, gr, st),
+                {"op": "dedupe", "kind": "parallel", "args": ["-f", spec.decode(), "-d", dl.decode("latin1"), "in_l", "in_r", "out_l", "out_r"],
+                 "left_hex": hexs(l1 + b"\n" + l2 + b"\n"), "right_hex": hexs(r1 + b"\n" + r2 + b"\n"), "out_left_hex": hexs(gl), "expected_left_hex": hexs(wl)})
+            break
+
     for spec, d, l1, l2, same in pairs[:40 if c.volume == "quick" else 300]:
         dl = bytes([d])
         data = l1 + b"\n" + l2 + b"\n"
